@@ -8,6 +8,14 @@ from .api import REPO, HarnessError
 
 _state = {"tf": None}
 
+import numpy as _numpy
+
+if not hasattr(_numpy, "Inf"):
+    # NumPy>=2 compatibility shim for tf_pwa/fit_improve.py (harness process
+    # only, see DESIGN 0.1); installed at import so that no import order in a
+    # check can trip over it
+    _numpy.Inf = _numpy.inf
+
 
 def setup_paths():
     if REPO not in sys.path[:1]:
